@@ -11,14 +11,20 @@ PROP = {'lean_props': ['Comrak.Props.C09'],
                        'xml_attr_values_escaped',
                        'xml_names_legal',
                        'xml_lexes',
-                       'xml_mirrors_tree_partial',
-                       'xml_wellformed_partial',
-                       'escapedTag_counterexample',
-                       'C09_mirrors_full_false'],
- 'strength': 'byte level, full for every option vector and every tree without children under literal kinds and without EscapedTag nodes: the '
-             'strict reader accepts the rendering and returns exactly the element tree of the AST (xml_mirrors_tree_partial); the full statement '
-             'is refuted at EscapedTag by a Lean witness (listed finding); balance and escaping are additionally proved without the EscapedTag '
-             'restriction (escaping for every tree at all)',
+                       'xml_tokens_lexable',
+                       'xml_mirrors_tree',
+                       'xml_wellformed',
+                       'C09_mirrors_full_holds',
+                       'C09_wellformed_full_holds',
+                       'literal_with_children_rejected',
+                       'escapedTag_example',
+                       'escapedTag_payload_before_fix',
+                       'info_unescaped_before_fix'],
+ 'strength': 'byte level, full: for every option vector and every tree without children under literal kinds (every parsed tree) the strict '
+             'reader accepts the rendering and returns exactly the element tree of the AST (xml_mirrors_tree = the named full statement '
+             'C09_mirrors_full, proved); the remaining hypothesis is necessary (Lean witness literal_with_children_rejected); escaping and legal '
+             'names are proved for every tree at all; the former EscapedTag exception was repaired in /repo commit ce28ea3 and its witness is '
+             'now a positive example',
  'trusted_base': ["the work-stack machine of xml.rs's format() is modelled (XmlStack.lean) and proved to write the tokens of the recursive "
                   'renderXmlT/renderXmlF; the context a table cell looks up through ancestors()/preceding_siblings() travels with the work item',
                   'readXml (the strict reader that is the oracle) is a hand-written Lean definition of "well-formed": the two prolog lines, one '
@@ -30,23 +36,29 @@ PROP = {'lean_props': ['Comrak.Props.C09'],
                  "XML 1.0's Char production (control characters) is not demanded by the property and not checked",
                  'a table cell in a header row whose index is past the alignments vector, or without a parent and grandparent, panics in the '
                  'code; the model writes no attribute there (never produced by the parser nor by the tree generator)',
-                 'that no literal-kind node of a parsed tree has children (hypothesis litLeafT of the theorems) is evaluated by the model on '
-                 'every tree of the run',
+                 'that no literal-kind node of a parsed tree has children (hypothesis litLeafT of the theorems, the only one left) is evaluated '
+                 'by the model on every tree of the run; a tree built by hand with a child under a text/code/raw-HTML/code-block/math node is '
+                 'outside the statement (its rendering carries two end tags: literal_with_children_rejected)',
                  'a panic inside parse_document leaves no tree to render and is counted as skipped (it is the subject of C01)']}
 
 TEXT = {'text': 'Proof. xml.rs is modelled completely at token level (prolog, 41 node kinds with their attributes, the private escape loop, min(indent,40) '
-         'indentation, Pre/Post traversal incl. the literal-kind and EscapedTag quirks); spellXml gives the exact bytes. A strict XML reader '
+         'indentation, Pre/Post traversal incl. the literal-kind quirk; the EscapedTag payload is the escaped attribute tag="..." since the repair '
+         'ce28ea3); spellXml gives the exact bytes. A strict XML reader '
          '(readXml: byte-at-a-time lexer + stack builder) and the element tree an AST stands for (xmlTree) are defined in Lean. Lean proves, for '
-         'every option vector and every tree of any depth/width in which no literal-kind node has children and no node is an EscapedTag, that '
+         'every option vector and every tree of any depth/width in which no literal-kind node has children, that '
          'readXml(renderXml o t) = some(xmlTree o t): the document is well-formed and its element tree is the AST node for node, with literals, '
-         'destinations, titles, labels and info strings recovered byte for byte (xml_mirrors_tree_partial; via lexing lemmas for names, escaped '
-         'values/text, attribute lists with pairwise different names, and a mutual induction for the builder). Also proved without the '
-         'EscapedTag restriction: the private escape equals html::escape; every attribute value and text run is escape(p), hence free of raw < > " '
+         'destinations, titles, labels, info strings and escaped-tag payloads recovered byte for byte (xml_mirrors_tree, which is the full '
+         'statement C09_mirrors_full; via lexing lemmas for names, escaped '
+         'values/text, attribute lists with pairwise different names, and a mutual induction for the builder). Also proved, for '
+         'every tree at all: every element and attribute name is legal and every piece of a start tag is a name="value" attribute '
+         '(xml_names_legal), every token is lexable (xml_tokens_lexable); the private escape equals html::escape; every attribute value and text run is escape(p), hence free of raw < > " '
          'and stray & (reusing the C19 theorem); tags balance whenever no literal-kind node has children; indentation is at most 40; the explicit Pre/Post work-stack machine with its indent += 2 / -= 2 accounting writes exactly the tokens of the recursive renderer (stack_traversal_eq_recursive). The '
-         'EscapedTag defect (payload written into the element name) is exhibited by a decide-witness rejected by readXml, refutes the full '
-         'statement, and is a listed finding; the info-string defect was repaired (fix: commit), its Lean before/after witness and replay are '
-         'kept. Tie to the code on every run: real format_xml bytes equal the model bytes on generated documents and directly built trees x '
-         'random options (sourcepos on/off); the Lean reader is run on the REAL bytes and must return exactly xmlTree of the same AST.',
+         'EscapedTag defect (payload written verbatim inside the start tag, <escaped_tag|>), which used to refute the full statement, was '
+         'repaired in /repo commit ce28ea3 (payload = escaped value of the attribute tag): its witness tree is now a positive decide-example '
+         '(escapedTag_example), the bytes written before the repair are shown rejected and the new ones accepted '
+         '(escapedTag_payload_before_fix), and the replays are kept and pass; likewise the info-string defect (commit b557667, '
+         'info_unescaped_before_fix). No finding is listed for C09 any more: every S failure on any tree is a violation. Tie to the code on every run: real format_xml bytes equal the model bytes on generated documents and directly built trees x '
+         'random options (sourcepos on/off), incl. EscapedTag trees with hostile payloads ("<&>, attribute and tag look-alikes, empty); the Lean reader is run on the REAL bytes and must return exactly xmlTree of the same AST.',
  'note': 'Trusted: Lean kernel + standard axioms; harness/driver; readXml is our '
          'definition of well-formedness (stricter than XML 1.0 on raw >, laxer on control characters); xmlTree shares the per-kind attribute '
          'table with the renderer model.',
